@@ -178,6 +178,8 @@ type signWorld struct {
 	yamlSafe bool
 	// allowOddKeys lets "<<" and "" through as mapping keys (C09 meets D6 on purpose).
 	allowOddKeys bool
+	// oddEnvNames lets env variable names with commas, outer white space and the like through
+	oddEnvNames bool
 	// oddSources adds legal-but-unusual plugin source strings (redundant separators, dot segments,
 	// percent signs, empty fragments): any string is a legal source in a document.
 	oddSources bool
@@ -201,6 +203,10 @@ func (w *signWorld) str(pos string) string {
 	case "env.name", "penv.name":
 		names := []string{"FOO", "BAR", "DEPLOY", "CONTEXT", "AWS_REGION", "NODE_ENV", "X", "Y", "Z", "PATH_EXTRA", "node_env", "env", "version", "e2e_target", "n", "vv", "Path", "nv::x"}
 		n := names[t.Draw(len(names), "str:envname")]
+		if w.oddEnvNames && t.Draw(12, "str:envname-odd") == 11 {
+			// a variable name is any string: commas and outer white space are part of it
+			n = []string{"TARGETS,HOSTS", "PADDED ", " LEAD", "a,b,c", "X, Y", "TAB\tNAME", "semi;colon", "eq=sign"}[t.Draw(8, "str:envname-oddv")]
+		}
 		if t.Draw(4, "str:envname-suffix") == 3 {
 			n += fmt.Sprint(t.Draw(30, "str:envname-n"))
 		}
@@ -215,6 +221,13 @@ func (w *signWorld) str(pos string) string {
 	}
 	isKey := strings.HasSuffix(pos, "key") || strings.HasSuffix(pos, ".name")
 	var s string
+	if !isKey && (pos == "command" || pos == "plugin.cfg.val") && t.Draw(60, "str:huge?") == 59 {
+		// a long script / a long option value (4 KiB .. 70 KiB)
+		n := []int{4000, 4096, 4200, 9000, 70000}[t.Draw(5, "str:hugen")]
+		unit := gen.Word(t, "str:"+pos) + " "
+		w.features["huge_string"] = true
+		return strings.Repeat(unit, n/len(unit)+1)
+	}
 	if w.rich {
 		s = gen.RichString(t, "str:"+pos)
 	} else {
@@ -404,6 +417,14 @@ func agentVerifyStep(c *engine.Ctx, prop string, cs *pipeline.CommandStep, env m
 			signature.WithEnv(env), signature.WithLogger(lg), signature.WithDebugSigning(true))
 	})
 	v.payloads = lg.payloads
+	// the same call without any observer (no logger, no debug signing): observers never change a verdict
+	var plain error
+	c.Guard(prop+".panic", "Verify (no options but the env)", func() {
+		plain = signature.Verify(ctx, cs.Signature, keySet, &signature.CommandStepWithInvariants{CommandStep: *cs, RepositoryURL: repoURL}, signature.WithEnv(env))
+	})
+	if (plain == nil) != (v.verifyErr == nil) {
+		c.Fail(prop+".verify-observer-dependent", fmt.Sprintf("plain=%v debug=%v", plain == nil, v.verifyErr == nil), "Verify accepts=%v with a logger and debug signing but accepts=%v without them (errors: %v / %v)\nstep command %q", v.verifyErr == nil, plain == nil, v.verifyErr, plain, truncate(cs.Command, 200))
+	}
 	return v
 }
 
